@@ -185,6 +185,29 @@ def run_hek_bounded(tier, seed):
     return out
 
 
+def run_ord_sort_enum(tier, seed):
+    """C13: evidence for two assumed contracts of the repeat-only proof: the derived Ord of KeyCode is a total order consistent with == (complete over all key codes) and sort leaves an ascending permutation (seeded vectors)"""
+    import witness
+    out = dict(name='ord_sort_enum', kind='enumerative', counts_as_proof=False)
+    try:
+        exe = witness.build()
+    except Exception as e:
+        out['undecided'] = 'harness build failed: %s' % str(e)[-300:]; return out
+    t0 = time.time()
+    p = subprocess.run([exe, 'ordsort', '200000' if tier == 'quick' else '5000000', str(seed + 1)], stdout=subprocess.PIPE, stderr=subprocess.PIPE, timeout=900)
+    try:
+        d = json.loads(p.stdout.decode().strip().split('\n')[-1])
+    except Exception as e:
+        out['undecided'] = 'probe output unreadable: %s %s' % (e, p.stderr.decode()[-300:]); return out
+    out.update(exhaustive=True, evaluations=d['pairs'] + d['triples'] + d['sorted_vectors'], distinct_nontrivial=d['pairs'], sample='RIGHTCTRL <= SELECT', wall_s=round(time.time() - t0, 2),
+               explanation='the ASSUMED axiom_keycode_total_order (derived Ord of KeyCode is a total order consistent with ==) is evaluated on the real type for every pair (%d: totality, antisymmetry, == is identity of the variant) and every triple a <= b (%d: transitivity) of the %d key codes - complete; the ASSUMED contract of sort (ascending permutation) on %d seeded Vec<KeyCode> - bounded. Evidence for assumptions on std / derive, never counted as proof'
+                           % (d['pairs'], d['triples'], d['key_codes'], d['sorted_vectors']),
+               bound='order axioms: complete over the %d key codes; sort: %d vectors of length <= 6' % (d['key_codes'], d['sorted_vectors']))
+    out['violations'] = len(d['failures'])
+    out['violation_list'] = [dict(input=f['input'], what=f['what']) for f in d['failures'][:1]]
+    return out
+
+
 def run_tables_enum(tier, seed):
     """C13: the two lazy_static tables against the US-QWERTY layout, complete over all scalar values / all rows (real tables through the harness)"""
     import witness
